@@ -92,10 +92,12 @@ def typestate_rule(rep, prog):
                 if (outcome == "ok") != is_ok:
                     rep.violation("R1", "read:%s:result" % case, "read() does not forward the inner result: %r" % (rv,))
     # seek
-    for flag in (False, True):
+    # the second configuration is a wrapper whose source did not start at stream position 0 (a second frame read from one stream):
+    # the cache counts bytes of this decode, the source position is absolute
+    for flag, src_pos in ((False, 2), (True, 2), (False, 9), (True, 9)):
         ip = entry.new_interp(prog, max_seconds=30, merge_returns=False)
         st = State()
-        w, info = make_wrapper(prog, st, adt_path, flag, [])
+        w, info = make_wrapper(prog, st, adt_path, flag, [], src_n=16, src_pos=src_pos)
         wloc = st.new_heap(w)
         sf = AdtVal("std::io::SeekFrom", 2, [IntVal.const(IntTy(64, True), -1)], vname="Current")
         outs = ip.run_function(seek_fn, [RefVal(wloc, True), sf], st)
@@ -105,14 +107,14 @@ def typestate_rule(rep, prog):
             fl = w2.fields[info["flag"]]
             src = w2.fields[info["src"]]
             cache = w2.fields[info["cache"]]
-            rep.instance(rid, "seek|flag=%s" % flag, sample={"flag_after": repr(fl), "source_pos_after": src.get("pos") if isinstance(src, Opaque) else None})
+            rep.instance(rid, "seek|flag=%s,source_at=%d" % (flag, src_pos), sample={"flag_after": repr(fl), "source_pos_after": src.get("pos") if isinstance(src, Opaque) else None})
             if not (isinstance(fl, IntVal) and fl.is_const() and fl.lo == 1):
-                rep.violation("R1", "seek:flag", "seek() leaves the re-read flag %r, expected true" % (fl,))
-            if not (isinstance(src, Opaque) and src.get("pos") == 1):
+                rep.violation("R1", "seek:flag", "seek() with the source at absolute position %d and %d cached bytes leaves the re-read flag %r, expected true (the re-read that follows would be cached twice)" % (src_pos, 2, fl))
+            if not (isinstance(src, Opaque) and src.get("pos") == src_pos - 1):
                 rep.violation("R1", "seek:forward", "seek() does not forward the seek to the inner source")
             if not (isinstance(cache, Opaque) and cache.get("elems") is not None and len(cache.get("elems")) == 2):
                 rep.violation("R1", "seek:cache", "seek() changes the byte cache")
-    rep.floor("wrapper transitions", 6, n)
+    rep.floor("wrapper transitions", 8, n)
     return adt_path
 
 
